@@ -15,11 +15,12 @@ PATHS = ["linear", "lowerPoly", "lowerErf", "upperPoly", "upperErf", "bothTrig",
 
 def pre(res):
     """regenerate the model from the current source; a translator failure is handled like a failed proof"""
-    from gen import gen_spacing
+    from gen import gen_spacing, gen_tokamak
 
     try:
         changed = gen_spacing.main()
-        res.extra["generated"] = {"file": "lean/HypnoModel/Gen/Spacing.lean", "changed_since_last_run": bool(changed)}
+        changed = gen_tokamak.main() or changed
+        res.extra["generated"] = {"files": ["lean/HypnoModel/Gen/Spacing.lean", "lean/HypnoModel/Gen/Tokamak.lean"], "changed_since_last_run": bool(changed)}
     except Exception as e:  # fail closed
         res.extra["generated"] = {"error": "%s: %s" % (type(e).__name__, e)}
         res.gen_error = "%s: %s" % (type(e).__name__, e)
